@@ -176,12 +176,20 @@ func runC14(e *Engine, res *EpisodeResult) {
 		var wantIs error
 		oldS, oldB := tengo.MaxStringLen, tengo.MaxBytesLen
 		switch pl.Kind {
-		case "oob":
+		case "oob", "oobSel":
 			wantIs = tengo.ErrIndexOutOfBounds
-		case "strlimit":
+		case "strlimit", "strlimitFmt":
+			wantIs = tengo.ErrStringLimit
+			tengo.MaxStringLen = 26
+		case "strlimitConv":
+			// the bytes value (27+) is fine, its conversion to a string is not
 			wantIs = tengo.ErrStringLimit
 			tengo.MaxStringLen = 26
 		case "byteslimit":
+			wantIs = tengo.ErrBytesLimit
+			tengo.MaxBytesLen = 26
+		case "byteslimitConv":
+			// the string (27+) is fine, its conversion to bytes is not
 			wantIs = tengo.ErrBytesLimit
 			tengo.MaxBytesLen = 26
 		}
